@@ -20,6 +20,7 @@ import (
 	"encoding/pem"
 	"errors"
 	"strconv"
+	"strings"
 
 	"github.com/secure-systems-lab/go-securesystemslib/cjson"
 	"github.com/secure-systems-lab/go-securesystemslib/signerverifier"
@@ -335,7 +336,7 @@ func vh_C04_keytypes(a []int) {
 // vh_C01_layoutsigs: VerifyLayoutSignatures over the real wrappers.
 // a = {wrapper, #keys that signed the layout (first n of 3), #supplied verification keys (first m of 3), alter after signing}
 func vh_C01_layoutsigs(a []int) {
-	dsse, nsigned, nsupplied, alter := a[0] == 1, a[1], a[2], a[3] == 1
+	dsse, nsigned, nsupplied, alter := a[0] == 1, a[1], a[2], a[3] == 1 // (a[3] == 3 sets alter as well)
 	md := vhNewWrapper(dsse, Layout{Type: "layout", Readme: "R0"})
 	for i := 0; i < nsigned; i++ {
 		if err := md.Sign(vhEdKey(i, true)); err != nil {
@@ -367,6 +368,36 @@ func vh_C01_layoutsigs(a []int) {
 				other = mb.Signatures[1].Sig
 			}
 			mb.Signatures[0].Sig = vConcStr(vPick("bad-sig", "", "00ff", "zz", other, mb.Signatures[0].Sig[:8]))
+		}
+	}
+	// a[3] == 3 / 4: the key id of key 0's signature entry is respelled (the same hexadecimal digits in upper
+	// case, padded, prefixed, truncated) and the entry no longer holds a valid signature over the current
+	// content: with 3 the content was altered after signing, with 4 the signature value is damaged.  Whatever
+	// the library makes of the respelled id, a layout without a valid signature of key 0 is not accepted.
+	if (a[3] == 3 || a[3] == 4) && nsigned >= 1 {
+		badSig = true
+		id := vhEdIDs[0]
+		respelt := vConcStr(vPick("respelt-keyid", strings.ToUpper(id), " "+id, id+" ", "0x"+id, id[:len(id)-1], strings.ToUpper(id[:1])+id[1:]))
+		if e, isEnv := md.(*Envelope); isEnv {
+			if a[3] == 3 {
+				// (SetPayload drops the signature list: the stale entries are put back, as an attacker would)
+				stale := e.envelope.Signatures
+				e.SetPayload(Layout{Type: "layout", Readme: "R1"})
+				e.envelope.Signatures = stale
+				alter = true
+			} else {
+				e.envelope.Signatures[0].Sig = "AAAA"
+			}
+			e.envelope.Signatures[0].KeyID = respelt
+		} else {
+			mb := md.(*Metablock)
+			if a[3] == 3 {
+				mb.Signed = Layout{Type: "layout", Readme: "R1"}
+				alter = true
+			} else {
+				mb.Signatures[0].Sig = "00ff"
+			}
+			mb.Signatures[0].KeyID = respelt
 		}
 	}
 	keys := map[string]Key{}
